@@ -140,7 +140,7 @@ fn start_endpoint(replies: BTreeMap<String, AiReply>) -> std::io::Result<Endpoin
                     let seen = seen.clone();
                     workers.push(std::thread::spawn(move || {
                         let _ = s.set_nonblocking(false);
-                        let _ = s.set_read_timeout(Some(Duration::from_secs(10)));
+                        let _ = s.set_read_timeout(Some(Duration::from_secs(120)));
                         let Some((rl, headers, body)) = read_http_request(&mut s) else {
                             return;
                         };
